@@ -10,45 +10,68 @@ import bromgen
 FINDING_REFLAG = "C02-known-avp-reflagged"
 
 
-def canon_avp(a):
+class Budget(Exception):
+    pass
+
+
+def canon_avp(a, out=None, budget=None):
+    """canonical text of a decoded AVP (recursively for Grouped classes); `budget` bounds the total size so that a
+    runaway decoder cannot exhaust memory (the truncated text still differs from the model's)"""
     from bromelia.base import DiameterAVP
     from bromelia.types import GroupedType
-    v = a.get_vendor_id() if a.vendor_id is not None else None
+    top = out is None
+    if top:
+        out, budget = [], [8000000]
     vs = "-" if a.vendor_id is None else str(int.from_bytes(a.vendor_id, "big"))
     d = a.data
     dh = (bytes(d).hex() if d else "") or "-"
     cls = "-" if type(a) is DiameterAVP else type(a).__name__
     kids = list(a.avps) if isinstance(a, GroupedType) else []
-    s = "A %d %d %s %s %s %d" % (a.get_code(), a.get_flags(), vs, dh, cls, len(kids))
+    piece = "A %d %d %s %s %s %d" % (a.get_code(), a.get_flags(), vs, dh, cls, len(kids))
+    budget[0] -= len(piece)
+    if budget[0] < 0:
+        raise Budget()
+    out.append(piece)
     for k in kids:
-        s += " " + canon_avp(k)
-    return s
+        canon_avp(k, out, budget)
+    if top:
+        return " ".join(out)
 
 
 def canon_msgs(ms):
     parts = []
-    for m in ms:
-        h = m.header
-        s = "H %d %d %d %d %d %d %d %d" % (h.get_version(), h.get_length(), h.get_flags(), h.get_command_code(),
-                                             h.get_application_id(), h.get_hop_by_hop(), h.get_end_to_end(), len(m.avps))
-        for a in m.avps:
-            s += " " + canon_avp(a)
-        s += " R " + (m.dump().hex() or "-")
-        parts.append(s)
+    budget = [8000000]
+    try:
+        for m in ms:
+            h = m.header
+            out = ["H %d %d %d %d %d %d %d %d" % (h.get_version(), h.get_length(), h.get_flags(), h.get_command_code(),
+                                                   h.get_application_id(), h.get_hop_by_hop(), h.get_end_to_end(), len(m.avps))]
+            for a in m.avps:
+                canon_avp(a, out, budget)
+            d = m.dump().hex() or "-"
+            budget[0] -= len(d)
+            if budget[0] < 0:
+                raise Budget()
+            out += ["R", d]
+            parts.append(" ".join(out))
+    except Budget:
+        parts.append("...TRUNCATED (output larger than the canonical-text budget)")
     return "ok " + " | ".join(parts)
 
 
 def load_impl(wire):
     from bromelia.base import DiameterMessage
     import bromelia.exceptions as X
-    try:
-        return canon_msgs(DiameterMessage.load(wire))
-    except BaseException as e:
-        if isinstance(e, (KeyboardInterrupt, SystemExit)):
-            raise
-        if isinstance(e, X.AVPParsingError):
-            return "err:parsing"
-        return "err:" + ("lib:" if type(e).__module__ == X.__name__ else "std:") + type(e).__name__
+    import watch
+    kind, res, iters = watch.guarded_load(DiameterMessage.load, wire)
+    if kind == "ok":
+        return canon_msgs(res)
+    if kind == "hang":
+        return "hang (decoder still looping after %d iterations on %d bytes)" % (iters, len(wire))
+    e = res
+    if isinstance(e, X.AVPParsingError):
+        return "err:parsing"
+    return "err:" + ("lib:" if type(e).__module__ == X.__name__ else "std:") + type(e).__name__
 
 
 HDR = {"version": [1, 0, 255], "flags": [0x00, 0x80, 0x40, 0xc0, 0x20, 0x10, 0xff],
@@ -119,6 +142,11 @@ def run(chk):
     explore(chk, g, n, "sweep")
     g.override = 0.0                                   # default flags only: outside the guard, full byte identity
     explore(chk, g, n // 2, "default-flags")
+    g.big = 0.15                                       # AVP lengths across the 2^16 boundary, followed by further AVPs
+    explore(chk, g, 60 if chk.tier == "quick" else 3000, "big-avps")
+    g.big = 0.002
+    from props import c10
+    c10.late_registration(chk)
     chk.extra["classes_hit"] = len([k for k in g.hits if not k.startswith("kind:") and k != "generic"])
 
     def search():
